@@ -743,3 +743,121 @@ def walk_nodes(model: Model, v, out=None, _d=0):
         if x is not _MISSING:
             walk_nodes(model, x, out, _d + 1)
     return out
+
+
+# ------------------------------------------------------------------------------------------------
+# Descriptor-driven refinement oracle: judges values against the refinement PARAMETERS THE GRAMMAR WAS WRITTEN WITH
+# (the JSON descriptor), not against whatever metahandler object the live annotation currently carries. A defect
+# that swaps or aliases refinement objects (caches keyed by an incomplete repr, stale annotations) is invisible to an
+# oracle that re-reads the refinement from the class.
+
+
+def _shadow(name, **kw):
+    cls = type(name, (), {})
+    o = cls()
+    for k, v in kw.items():
+        setattr(o, k, v)
+    return o
+
+
+def shadow_mh(d):
+    """Stand-in object with the same class name and attribute names as the library's metahandler, built from a
+    descriptor [name, *params] - so `satisfies` can judge it without touching the library object."""
+    name, *p = d
+    if name == "IntRange":
+        return _shadow("IntRange", min=p[0], max=p[1])
+    if name == "FloatRange":
+        return _shadow("FloatRange", min=p[0], max=p[1])
+    if name in ("IntList", "FloatList"):
+        return _shadow(name, elements=list(p[0]))
+    if name == "VarRange":
+        return _shadow("VarRange", options=list(p[0]))
+    if name == "ListSizeBetween":
+        return _shadow("ListSizeBetween", min=p[0], max=p[1])
+    if name == "LSBWLO":
+        return _shadow("ListSizeBetweenWithoutListOperations", min=p[0], max=p[1])
+    if name == "StringSizeBetween":
+        return _shadow("StringSizeBetween", min=p[0], max=p[1], options=list(p[2]))
+    if name == "WeightedString":
+        import numpy as np
+
+        return _shadow("WeightedStringHandler", probability_matrix=np.array(p[0]), alphabet=list(p[1]))
+    if name == "IntervalRange":
+        return _shadow("IntervalRange", minimum_length=p[0], maximum_length=p[1], maximum_top_limit=p[2])
+    raise ValueError(name)
+
+
+def desc_refinement_violations(built, v, t=None, path="$", siblings=None, out=None, depth=0):
+    """(path, refinement name, reason) for every refined position of v that violates the DESCRIPTOR's refinement.
+    t is a descriptor type expression (default: the start symbol)."""
+    from gev.grammars import dep_params
+
+    if out is None:
+        out = []
+    if len(out) > 10 or depth > 400:
+        return out
+    if t is None:
+        t = ["ref", built.desc["start"]]
+    k = t[0]
+    if k == "ann":
+        r = satisfies(v, None, shadow_mh(t[2]), {})
+        if r is not None:
+            out.append((path, t[2][0], r))
+        desc_refinement_violations(built, v, t[1], path, None, out, depth + 1)
+    elif k == "dep":
+        sib = (siblings or {}).get(t[2], _MISSING)
+        if sib is not _MISSING and type(sib) is int:
+            d = dep_params(t[3], t[4], sib)
+            if d is None:
+                out.append((path, "Dependent->infeasible", "value present although the dependency admits none for these siblings"))
+            else:
+                r = satisfies(v, None, shadow_mh(d), {})
+                if r is not None:
+                    out.append((path, "Dependent->" + d[0], r))
+        desc_refinement_violations(built, v, t[1], path, None, out, depth + 1)
+    elif k == "list":
+        if isinstance(v, list):
+            for i, x in enumerate(v):
+                desc_refinement_violations(built, x, t[1], f"{path}[{i}]", None, out, depth + 1)
+    elif k == "tuple":
+        if type(v) is tuple and len(v) == len(t) - 1:
+            for i, (x, tt) in enumerate(zip(v, t[1:])):
+                desc_refinement_violations(built, x, tt, f"{path}.{i}", None, out, depth + 1)
+    elif k == "union":
+        subs = []
+        for tt in t[1:]:
+            if _desc_shape_ok(built, x=v, t=tt):
+                subs.append(desc_refinement_violations(built, v, tt, path, None, [], depth + 1))
+        if subs and all(subs):
+            out.extend(min(subs, key=len))
+    elif k == "ref":
+        c = type(v)
+        fields = built.field_types.get(c.__name__)
+        if fields is not None and built.ns.get(c.__name__) is c:
+            sib = {}
+            for fn, ft in fields:
+                x = getattr(v, fn, _MISSING)
+                if x is _MISSING:
+                    continue
+                desc_refinement_violations(built, x, ft, f"{path}.{fn}", dict(sib), out, depth + 1)
+                sib[fn] = x
+    return out
+
+
+def _desc_shape_ok(built, x, t):
+    """Cheap structural test used to pick the union member a value belongs to."""
+    k = t[0]
+    if k in ("int", "float", "str", "bool"):
+        return type(x) is {"int": int, "float": float, "str": str, "bool": bool}[k]
+    if k in ("ann", "dep"):
+        return _desc_shape_ok(built, x, t[1])
+    if k == "list":
+        return isinstance(x, list)
+    if k == "tuple":
+        return type(x) is tuple
+    if k == "union":
+        return any(_desc_shape_ok(built, x, tt) for tt in t[1:])
+    if k == "ref":
+        target = built.ns.get(t[1])
+        return target is not None and isinstance(x, target)
+    return False
